@@ -38,7 +38,7 @@ TRUSTED = ["oracle: list-of-samples model in Python written from the property te
            "CPython round(Fraction) as the reference for round-half-even in the unit comparison"]
 ASSUMPTIONS = ["mono recordings, sample widths 1, 2, 4, frame rate a positive integer",
                "model correspondence is claimed for times t with t*rate exact in binary64 (t = k/2^m with few significant bits, "
-               "|t*rate| < 2^53; for readFramesAtTime also t1-t0 exact); other times (0.3, 1/3, k/8000 ...) are checked by the oracle only",
+               "|t*rate| < 2^53); other times (0.3, 1/3, k/8000 ...) are checked by the oracle only",
                "where the exact product t*rate lies within one binary64 rounding error (|x|*2^-52) of a half-sample point, or exactly "
                "on it, the oracle accepts either neighbouring sample index ('the sample indices nearest to the requested times')",
                "times are taken in [0, duration] for the oracle; start <= end for two-time operations"]
@@ -89,9 +89,8 @@ def prod_exact(t, rate):
 
 
 def read_exact(rate, t0, t1):
-    """are the float operations of readFramesAtTime(file, t0, t1) exact?"""
-    d = t1 - t0
-    return prod_exact(t0, rate) and Fraction(d) == Fraction(t1) - Fraction(t0) and prod_exact(d, rate)
+    """are the float operations of readFramesAtTime(file, t0, t1) (round(rate*t0), round(rate*t1)) exact?"""
+    return prod_exact(t0, rate) and prod_exact(t1, rate)
 
 
 def tend(c):
@@ -122,7 +121,7 @@ def has_model(c):
             n = len(c["hex"]) // 2 // c["w"]
             t1 = float(n) / c["rate"]
             if Fraction(t1) != Fraction(n, c["rate"]):
-                return t0 == 0.0   # round(rate * (n/rate)) = n whatever the rounding of the quotient
+                return prod_exact(t0, c["rate"])   # round(rate * (n/rate)) = n whatever the rounding of the quotient
         else:
             t1 = c["t1"]
         return read_exact(c["rate"], t0, t1)
@@ -389,12 +388,6 @@ def oracle_range(c, got, sig):
     I, J = nearest_x(x0), nearest_x(x1)
     if any(got == S[i:j] for i in I for j in J if i <= j):
         return None
-    # which clause?  the code reads round(rate*(t1-t0)) samples from round(rate*t0)
-    if any(got == S[i:i + k] for i in I for k in nearest_x(x1 - x0)):
-        off = any(abs(x - round(x)) > Fraction(1, 2 ** 30) for x in (x0, x1))
-        return Failure(dict(sig, clause="end-index-nearest", off_grid=off),
-                       f"[{c['t0']},{c['t1']}] at rate {rate}, {n} samples: {len(got)} samples read from index {I}, but the index nearest "
-                       f"to the end time is {J} (start*rate = {float(x0)}, end*rate = {float(x1)})")
     return Failure(dict(sig, clause="range"), f"[{c['t0']},{c['t1']}] at rate {rate}: samples {got[:8]}… ({len(got)}) are not S[{I}:{J}]")
 
 
@@ -601,11 +594,14 @@ def corpus():
     yield {"op": "invdel", "w": 2, "rate": 8, "hex": ramp(8, 2), "t": 0.4375, "g": ramp(1, 2, 77)}
     yield {"op": "invdel", "w": 2, "rate": 8, "hex": ramp(8, 2), "t": 0.3125, "g": ramp(2, 2, 77)}   # even count: restored
     yield {"op": "invdel", "w": 2, "rate": 8, "hex": ramp(8, 2), "t": 0.3, "g": ramp(3, 2, 77)}      # off a tie: restored
-    # QueryWav / readFramesAtTime read round(rate*(t1-t0)) samples from round(rate*t0): the end index is not the one nearest to t1
+    # C16-R1 (fixed, fedc16f): QueryWav / readFramesAtTime read round(rate*(t1-t0)) samples from round(rate*t0), so the end
+    # index was not the one nearest to t1 and endTime=None could drop the last sample of the file
     yield {"op": "query", "w": 1, "rate": 8, "hex": ramp(9, 1), "t0": 0.0625, "t1": 0.203125}
     yield {"op": "readat", "w": 2, "rate": 8, "hex": ramp(9, 2), "t0": 0.0625, "t1": 0.203125}
     yield {"op": "getsamples", "w": 1, "rate": 8, "hex": ramp(9, 1), "t0": 0.0625, "t1": 0.203125}
-    # wave.Error on a position beyond the file; a reversed window reads to the end of the chunk
+    yield {"op": "query", "w": 1, "rate": 8, "hex": ramp(9, 1), "t0": 0.3125, "t1": None}
+    yield {"op": "query", "w": 2, "rate": 44100, "hex": "0080ff7fff7fff7fff7fff7fff7fff7fff7f0000ff7fff7f", "t0": 0.00010204081632653062, "t1": None}
+    # wave.Error on a position beyond the file; a reversed window is empty
     yield {"op": "readat", "w": 1, "rate": 8, "hex": ramp(9, 1), "t0": 2.0, "t1": 3.0}
     yield {"op": "readat", "w": 1, "rate": 8, "hex": ramp(9, 1), "t0": 0.5, "t1": 0.25}
     yield {"op": "query", "w": 2, "rate": 8000, "hex": ramp(40, 2), "t0": None, "t1": None}
